@@ -2,7 +2,6 @@ package client
 
 import (
 	"context"
-	"errors"
 	"fmt"
 	"net"
 
@@ -86,7 +85,11 @@ func (l *listener) AcceptWithContext(ctx context.Context) (net.Conn, error) {
 			return nil, ctx.Err()
 		}
 
-		if errors.Is(err, yamux.ErrSessionShutdown) || errors.Is(err, net.ErrClosed) {
+		// Only stop if the listener was closed locally (Close or Shutdown).
+		// The error can't be used to tell, as the session also ends with
+		// 'closed' when the server closes the connection or goes away, in
+		// which case the listener must reconnect.
+		if l.closeCtx.Err() != nil {
 			return nil, ErrClosed
 		}
 
